@@ -34,8 +34,8 @@ func (r *Runtime) builtinJSON_parse(call FunctionCall) Value {
 
 	var reviver func(FunctionCall) Value
 
-	if arg1 := call.Argument(1); arg1 != _undefined {
-		reviver, _ = arg1.ToObject(r).self.assertCallable()
+	if arg1, ok := call.Argument(1).(*Object); ok {
+		reviver, _ = arg1.self.assertCallable()
 	}
 
 	if reviver != nil {
